@@ -8,102 +8,102 @@ COMMON_NOTE = (
 
 META: dict[str, dict[str, str]] = {
     "C01": {
-        "level": "Decides the structural clauses: (a) the amplitude table handed to HelicityModel receives keys derived from the intensity's summation domain (inter-procedural def-use with parameter-bound summaries, depth 3) - a table keyed by transitions alone cannot cover the product of per-state pools; (b) every symbol family constructed at several sites of helicity/kinematics (47 sites measured) agrees in kind and assumptions, single producers stay single; (c) on every path of formulate (paths enumerated) a mass stored as parameter is deleted from / cannot be in the kinematic variables; builder-created parameters are registered at creation. Which symbols custom builders introduce, and clause (d), are not decided.",
+        "level": "Decides the structural clauses: (a) the amplitude table handed to HelicityModel receives keys derived from the intensity's summation domain (inter-procedural def-use with parameter-bound summaries, depth 3) - a table keyed by transitions alone cannot cover the product of per-state pools; (b) every symbol family constructed at several sites of helicity/kinematics (47 sites measured) agrees in kind and assumptions, single producers stay single; (c) on every path of formulate (paths enumerated) a mass stored as parameter is deleted from / cannot be in the kinematic variables; builder-created parameters are registered at creation. Which symbols custom builders introduce, and clause (d), are not decided. Also: ids combined with a topology were computed from that same topology (R-SAMETOPOLOGY, 63 call sites), the builder and the adapter use one helicity-state convention (R-NORMALISED), symmetrised topologies are registered in the adapter (R-KINDOMAIN).",
         "note": "SymPy symbol identity = name + assumptions; create_expressions defines all invariant-mass symbols." + COMMON_NOTE,
         "technique": "static analysis: inter-procedural provenance of dictionary keys, symbol-construction family comparison, path enumeration with paired store/delete typestate",
     },
     "C02": {
-        "level": "Decides (a) the argument roles of the Wigner-D and both Clebsch-Gordan factors against the formula in the property statement (term extraction with attribute paths as atoms, linear forms normalised) and (b) a must-use rule over the fold chain: every transition / symmetrisation graph / node reaches its accumulator unconditionally and accumulators are folded whole (sum over transitions, product over nodes, |coherent sum|^2, coefficient and prefactor multiply the product). Numerical equality, components and symmetrisation multiplicity are not decided.",
+        "level": "Decides (a) the argument roles of the Wigner-D and both Clebsch-Gordan factors against the formula in the property statement (term extraction with attribute paths as atoms, linear forms normalised) and (b) a must-use rule over the fold chain: every transition / symmetrisation graph / node reaches its accumulator unconditionally and accumulators are folded whole (sum over transitions, product over nodes, |coherent sum|^2, coefficient and prefactor multiply the product). Numerical equality, components and symmetrisation multiplicity are not decided. Also: the group key of the incoherent sum is lossless (R-GROUPKEY); the two Clebsch-Gordan factors are required on EVERY path of formulate_isobar_cg_coefficients (path-sensitive term extraction).",
         "note": "Argument order of sympy's Rotation.D and CG; an edit that skips provably vanishing terms would be reported by R-FOLD (none exists)." + COMMON_NOTE,
         "technique": "static analysis: term extraction with role comparison against the stated formula; must-use dataflow over loops and comprehensions of the fold chain",
     },
     "C03": {
-        "level": "Decides that the prefactor attached to a chain is built from the parity factors of exactly the nodes whose coefficient was mapped to a partner: every returned value depends on the node loop variable, every in-loop contribution is control-dependent on the per-node test `mapped suffix != raw suffix` and takes interactions[node].parity_prefactor of that node; plus the construction of the partner suffix (both daughters negated, parent helicity suppressed). Equivalence with the canonical formalism for all LS values is not decided.",
+        "level": "Decides that the prefactor attached to a chain is built from the parity factors of exactly the nodes whose coefficient was mapped to a partner: every returned value depends on the node loop variable, every in-loop contribution is control-dependent on the per-node test `mapped suffix != raw suffix` and takes interactions[node].parity_prefactor of that node; plus the construction of the partner suffix (both daughters negated, parent helicity suppressed). Equivalence with the canonical formalism for all LS values is not decided. Also: when the node loop only collects the flipped nodes, the collection is guarded by the flip test and the helper multiplies over exactly its selection (no falsy-empty fallback); the canonical CG expansion of the equivalence clause is the two-factor product on every path.",
         "note": "qrules' parity_prefactor is the eta of that node." + COMMON_NOTE,
         "technique": "static analysis: data dependence (reaching definitions) and control dependence of returns/accumulator updates on the node loop",
     },
     "C04": {
-        "level": "Decides the structural necessary conditions of rotation invariance: key/value provenance of every angle store in compute_helicity_angles (R-PROV; the sibling-named, child-filled store is recorded known finding K1), the frame chain B_z(|P|/E) R_y(-theta) R_z(-phi) of one summed momentum with recursion into the boosted pool, identical resolution of the opposite-helicity state at every consumer of the angle names, and the (-phi, theta, 0) convention of the Wigner-D. Numerical invariance is not decided.",
+        "level": "Decides the structural necessary conditions of rotation invariance: key/value provenance of every angle store in compute_helicity_angles (R-PROV; the sibling-named, child-filled store is recorded known finding K1), the frame chain B_z(|P|/E) R_y(-theta) R_z(-phi) of one summed momentum with recursion into the boosted pool, identical resolution of the opposite-helicity state at every consumer of the angle names, and the (-phi, theta, 0) convention of the Wigner-D. Numerical invariance is not decided. Also: reads of the momentum pool see only the handed-in pool (R-POOL), lossless group key (R-GROUPKEY), axis-angle rotation chain walked upwards from the rotated state (R-CHAINORDER).",
         "note": "qrules Topology API; is_opposite_helicity_state is a total order on siblings." + COMMON_NOTE,
         "technique": "static analysis: reaching-definition provenance of key vs value, AST role matching after local inlining, sibling agreement over call sites",
     },
     "C06": {
-        "level": "Decides the structural causes of history / hash-seed dependence on the formulate path (call graph with class-hierarchy approximation, 115 functions measured): (a) no alias of the mutable part of a memoised result is mutated or handed out uncopied (alias flow to a fixed point through wrappers and polymorphic calls, tuple components distinguished); (b) formulate resets its scratch state first, reset re-creates every field, and every other write targets locals / objects under construction; (c) no unordered container with hash-seed-sensitive elements reaches an order-preserving sink (taint with sanitisers sorted/min/max/len, inter-procedural sink-parameter summaries), int-id sets and insertion-history-only sets are classified separately; (d) model mapping fields are converted into new (sorted) mappings. Fresh-process equality beyond these causes and thread interleavings are not decided.",
+        "level": "Decides the structural causes of history / hash-seed dependence on the formulate path (call graph with class-hierarchy approximation, 115 functions measured): (a) no alias of the mutable part of a memoised result is mutated or handed out uncopied (alias flow to a fixed point through wrappers and polymorphic calls, tuple components distinguished); (b) formulate resets its scratch state first, reset re-creates every field, and every other write targets locals / objects under construction; (c) no unordered container with hash-seed-sensitive elements reaches an order-preserving sink (taint with sanitisers sorted/min/max/len, inter-procedural sink-parameter summaries), int-id sets and insertion-history-only sets are classified separately; (d) model mapping fields are converted into new (sorted) mappings. Fresh-process equality beyond these causes and thread interleavings are not decided. Also: no class-level mutable state shared between builders (R-SHARED), nothing on the formulate path creates a process-unique value such as sp.Dummy / uuid / clock / random / id() (R-FRESH).",
         "note": "functools.cache semantics; CPython hashing of small ints vs str/SymPy objects; qrules id sets are ints." + COMMON_NOTE,
         "technique": "static analysis: alias/escape analysis of memoised results, write-effect classification over the call graph, unordered-to-ordered taint analysis with sink-parameter summaries",
     },
     "C07": {
-        "level": "Decides: for every producer merged into HelicityAdapter.create_expressions (found from the call graph) each named store's value derives from the same state id as its name (so equal names carry equal quantities across registered topologies; K1 recorded as known finding), and the definitions of InvariantMass, Phi, Theta, component slices, norms, mass naming and the mass store equal the documented formulas. Agreement with an independent numerical computation is not decided.",
+        "level": "Decides: for every producer merged into HelicityAdapter.create_expressions (found from the call graph) each named store's value derives from the same state id as its name (so equal names carry equal quantities across registered topologies; K1 recorded as known finding), and the definitions of InvariantMass, Phi, Theta, component slices, norms, mass naming and the mass store equal the documented formulas. Agreement with an independent numerical computation is not decided. Also: helicity frame chain and pool discipline (R-FRAME, R-POOL), the Dalitz closed form formulate_scattering_angle for all six ordered pairs against the (ij)-frame geometry, no id compared with an integer literal on the naming path (R-LITERALID), memo invalidation in HelicityAdapter (R-MEMO).",
         "note": "qrules get_originating_final_state_edge_ids semantics." + COMMON_NOTE,
         "technique": "static analysis: reaching-definition provenance over call-graph-discovered producers; term extraction of expression-class definitions",
     },
     "C05": {
-        "level": "Decides the structural necessary conditions: every list/set .remove() in the package is guarded or covered by a recorded invariant (so formulating an aligned model cannot raise for any spin), the alignment PoolSums range over create_spin_range(s) of the rotated state's own spin with the matching Wigner-D j and index, create_spin_range runs -s..s in unit steps, and the DPD Wigner-d factors are wired to consistent outer states. Does not decide aligned == unaligned intensity.",
+        "level": "Decides the structural necessary conditions: every list/set .remove() in the package is guarded or covered by a recorded invariant (so formulating an aligned model cannot raise for any spin), the alignment PoolSums range over create_spin_range(s) of the rotated state's own spin with the matching Wigner-D j and index, create_spin_range runs -s..s in unit steps, and the DPD Wigner-d factors are wired to consistent outer states. Does not decide aligned == unaligned intensity. Also: every term reaching the DPD PoolSum summand carries all summation indices and one rotation per outer state (R-SUMMAND), no memoised mutable container of helicity.align is written (R-CACHE), axis-angle chain order (R-CHAINORDER).",
         "note": "Invariant table for two remove() sites (reason recorded per entry)." + COMMON_NOTE,
         "technique": "static analysis: dominating-guard check on remove() call sites, def-use wiring of PoolSum pools vs Wigner-D arguments, loop-shape roles",
     },
     "C08": {
-        "level": "Decides: printer discipline of all NumPy/Python printer methods (so cse on/off and non-symbol arguments print valid code), agreement of the explicit matrix with the matrix laid out by the generated-code template for the arguments evaluate() passes (4 classes x 16 entries, commutative normal form), and the Lorentz condition M^T eta M = eta, handedness, L00 = gamma, B(p)p = (m,0,0,0) and symmetry for the explicit matrices as rational-function identities over sqrt atoms. Does not decide einsum strings, batch sizes or floating-point accuracy.",
+        "level": "Decides: printer discipline of all NumPy/Python printer methods (so cse on/off and non-symbol arguments print valid code), agreement of the explicit matrix with the matrix laid out by the generated-code template for the arguments evaluate() passes (4 classes x 16 entries, commutative normal form), and the Lorentz condition M^T eta M = eta, handedness, L00 = gamma, B(p)p = (m,0,0,0) and symmetry for the explicit matrices as rational-function identities over sqrt atoms. Does not decide einsum strings, batch sizes or floating-point accuracy. Also: precedence hazards of code templates (R-PREC), single ordered einsum shape (R-EINSUM; other printer shapes are outside the grammar and give exit 2), Piecewise entries inside the boost matrix are compared as opaque terms.",
         "note": "ComplexSqrt == sqrt for beta <= 1; formal radical algebra at a generic positive point." + COMMON_NOTE,
         "technique": "static analysis: taint of f-string placeholders in printer methods; term extraction of matrix literals and code templates with rational-function normal form",
     },
     "C09": {
-        "level": "Decides what unitarity and symmetry need from the code: K parametrisations symmetric under i<->j and free of the imaginary unit, T = K(1-iK)^-1 and the relativistic T^/T formulas in a non-commutative normal form (push-through equivalents accepted, wrong sign/side/missing rho rejected), rho symbol identity between producer and both consumers, duplicated symbol constructions agreeing in kind and assumptions, K[i,j] substituted by the own parametrisation. Numerical unitarity is not decided.",
+        "level": "Decides what unitarity and symmetry need from the code: K parametrisations symmetric under i<->j and free of the imaginary unit, T = K(1-iK)^-1 and the relativistic T^/T formulas in a non-commutative normal form (push-through equivalents accepted, wrong sign/side/missing rho rejected), rho symbol identity between producer and both consumers, duplicated symbol constructions agreeing in kind and assumptions, K[i,j] substituted by the own parametrisation. Numerical unitarity is not decided. Also: rho placeholders carry no assumptions (R-PLACEHOLDER), forwarding of phsp_factor/L/radius as necessary condition of a real width (R-FORWARD), memoised matrices never written (R-CACHE), helper functions and element-wise matrix definitions over diagonal matrices are evaluated in the matrix normal form.",
         "note": "Matrix identities (push-through) and S = 1+2iT are trusted mathematics." + COMMON_NOTE,
         "technique": "static analysis: term extraction with closure inlining, swap-invariance of the normal form, non-commutative matrix normal form, symbol-construction pairing",
     },
     "C10": {
-        "level": "Decides (b) completely at the code level: every (caller, callee, parameter) triple over {phsp_factor, angular_momentum, meson_radius} in ampform.dynamics (measured on each run) forwards the caller's own value, for any value a caller may pass; and (a) structurally: F = (1-iK)^-1 P and the relativistic analogue in non-commutative normal form, K/P substituted by the library's own parametrisations with matching indices and shared pole symbols. Residuals and the 1-channel/1-pole reduction are not decided.",
+        "level": "Decides (b) completely at the code level: every (caller, callee, parameter) triple over {phsp_factor, angular_momentum, meson_radius} in ampform.dynamics (measured on each run) forwards the caller's own value, for any value a caller may pass; and (a) structurally: F = (1-iK)^-1 P and the relativistic analogue in non-commutative normal form, K/P substituted by the library's own parametrisations with matching indices and shared pole symbols. Residuals and the 1-channel/1-pole reduction are not decided. Also: the one-channel/one-pole reductions K/(1-iK), P/(1-iK) == the library's relativistic_breit_wigner[_with_ff] as rational-function identities and the pole sums (R-TERM), no args-reconstructing SymPy operation on expressions that may carry a non-sympified phsp_factor (R-REBUILD), placeholder and hash-key injectivity rules shared with C09/C14.",
         "note": "Python call semantics (an omitted keyword takes the callee's default)." + COMMON_NOTE,
         "technique": "static analysis: call-graph triple enumeration with def-use check of forwarded arguments; non-commutative matrix normal form",
     },
     "C16": {
-        "level": "Decides the cache protocol on every syntactic path through perform_cached_doit and its helpers (paths enumerated, helpers spliced in): a loaded value is returned only after an equality test against the query (all directory histories, colliding keys), load/open failures cannot propagate and lead to recomputation (all crash points that leave a partial file), the final name is published only by rename from a closed process-unique temporary (concurrent writers/readers). Does not decide SymPy's == or POSIX rename atomicity.",
+        "level": "Decides the cache protocol on every syntactic path through perform_cached_doit and its helpers (paths enumerated, helpers spliced in): a loaded value is returned only after an equality test against the query (all directory histories, colliding keys), load/open failures cannot propagate and lead to recomputation (all crash points that leave a partial file), the final name is published only by rename from a closed process-unique temporary (concurrent writers/readers). Does not decide SymPy's == or POSIX rename atomicity. Also: only the call's own mkstemp temporary is ever deleted (R-OWNFILES).",
         "note": "Exception set of pickle.load per the Python documentation; os.replace atomic within a directory; mkstemp unique." + COMMON_NOTE,
         "technique": "static analysis: structured path enumeration with inter-procedural splicing and a taint/typestate interpretation (load, key, verified, final, tmp)",
     },
     "C17": {
-        "level": "Decides that rename_symbols rebuilds every field of the attrs class HelicityModel (fields read from the class body, exempt table: reaction_info) from one symbol mapping - keys and values where keys are symbols - with the simultaneous primitive xreplace, that new symbols carry **assumptions0, that other symbols map to themselves, that the mapping ranges over expression/kinematic-variable keys/values, and that neither the (frozen) original nor the caller's map is mutated. A field added later without a rename handler is reported by name. Numerical equivalence is not decided.",
+        "level": "Decides that rename_symbols rebuilds every field of the attrs class HelicityModel (fields read from the class body, exempt table: reaction_info) from one symbol mapping - keys and values where keys are symbols - with the simultaneous primitive xreplace, that new symbols carry **assumptions0, that other symbols map to themselves, that the mapping ranges over expression/kinematic-variable keys/values, and that neither the (frozen) original nor the caller's map is mutated. A field added later without a rename handler is reported by name. Numerical equivalence is not decided. Also: a loop-built mapping must select symbols by their own name (sequential application of the pairs is reported).",
         "note": "xreplace is simultaneous; attrs.evolve re-runs converters." + COMMON_NOTE,
         "technique": "static analysis: field-exhaustiveness of the attrs.evolve call with def-use dependence on the symbol mapping; role checks of the mapping comprehension",
     },
     "C18": {
-        "level": "Decides the structural clauses: binder discipline (a class that removes bound symbols from free_symbols guards their substitution), the shape of evaluate (Add over itertools.product of all pools, zip(symbols, combination) into the summand), the subtrahend of free_symbols, and on every path of cleanup whether an index is kept, substituted or compensated. The dropped-unused-index path of cleanup is a recorded known finding (K2). Evaluation for arbitrary summands is not decided.",
+        "level": "Decides the structural clauses: binder discipline (a class that removes bound symbols from free_symbols guards their substitution), the shape of evaluate (Add over itertools.product of all pools, zip(symbols, combination) into the summand), the subtrahend of free_symbols, and on every path of cleanup whether an index is kept, substituted or compensated. The dropped-unused-index path of cleanup is a recorded known finding (K2). Evaluation for arbitrary summands is not decided. Also: own indices are substituted with the binding-aware subs (R-BINDSUBST); the substitution guard is not wider than the instance's own indices.",
         "note": "SymPy's subs protocol (_eval_subs consulted first) and ExprWithLimits' own guards are trusted." + COMMON_NOTE,
         "technique": "static analysis: binder sibling rule, role check of the evaluate comprehension after local inlining, path enumeration of the cleanup loop",
     },
     "C11": {
-        "level": "Decides the algebraic clauses as term identities: 4s*q^2 symmetric, zero at both thresholds, equal to the Kallen function of the kinematics module; the three plain variants are 2*R(q^2)/sqrt(s) with R = sqrt / sqrt(Abs) / ComplexSqrt; ComplexSqrt's two-branch definition, its NumPy printer printing that very definition and the Python printer's two rows; the Chew-Mandelstam formula, the -i factor of the S-wave variant and the three-row case table of the equal-mass continuation against the PDG forms. The transcendental identities (Re rho for the Chew-Mandelstam variants, equal-mass equivalence, continuity) are declined, not approximated.",
+        "level": "Decides the algebraic clauses as term identities: 4s*q^2 symmetric, zero at both thresholds, equal to the Kallen function of the kinematics module; the three plain variants are 2*R(q^2)/sqrt(s) with R = sqrt / sqrt(Abs) / ComplexSqrt; ComplexSqrt's two-branch definition, its NumPy printer printing that very definition and the Python printer's two rows; the Chew-Mandelstam formula, the -i factor of the S-wave variant and the three-row case table of the equal-mass continuation against the PDG forms. The transcendental identities (Re rho for the Chew-Mandelstam variants, equal-mass equivalence, continuity) are declined, not approximated. Also: .args are in field-declaration order however keyword arguments are spelled (R-ARGORDER, shared with C14).",
         "note": "sqrt/Abs/log/atan semantics; formal algebra at a generic positive point." + COMMON_NOTE,
         "technique": "static analysis: term extraction with inlining of helper functions, rational-function normal form with sqrt/app atoms, case-table comparison",
     },
     "C12": {
-        "level": "Decides by substitution in the extracted terms: Gamma(m0^2) = Gamma0 for every phase-space factor and L (the factor is an opaque callable, L symbolic), B_L^2(1) = 1, FormFactor = sqrt(B_L^2(q^2 d^2)); by call graph that the fast polynomial path is derived from the Hankel definition in the same variable; and term equality of the builder classes' expressions with the public lineshape functions under the stated correspondence, plus the flags of the convenience builders. Threshold behaviour / boundedness are not decided.",
+        "level": "Decides by substitution in the extracted terms: Gamma(m0^2) = Gamma0 for every phase-space factor and L (the factor is an opaque callable, L symbolic), B_L^2(1) = 1, FormFactor = sqrt(B_L^2(q^2 d^2)); by call graph that the fast polynomial path is derived from the Hankel definition in the same variable; and term equality of the builder classes' expressions with the public lineshape functions under the stated correspondence, plus the flags of the convenience builders. Threshold behaviour / boundedness are not decided. Also: the four flag combinations of the builder against the function API; the variable set handed to the builders carries the L of the node (shared with C13).",
         "note": "SymPy's doit().simplify()/lambdify are value preserving." + COMMON_NOTE,
         "technique": "static analysis: term extraction of methods with struct-valued parameters, substitution and rational-function equality, call-graph single-source rule",
     },
     "C13": {
-        "level": "Decides the wiring: the variable set of a node (parent mass, daughter masses, angles of children[0], L with None-guarded fallbacks), the arguments the lineshape builders pass into FormFactor / EnergyDependentWidth, the parameter-default dictionaries (mass/width/radius), agreement of duplicated symbol constructions, the singledispatch registry of DynamicsSelector.assign with every implementation reaching the single store and selection by parent name over all decays, and that lookup / resonance / variables / Wigner-D refer to the same (transition, node). Re-assignment histories and custom builders are not decided.",
+        "level": "Decides the wiring: the variable set of a node (parent mass, daughter masses, angles of children[0], L with None-guarded fallbacks), the arguments the lineshape builders pass into FormFactor / EnergyDependentWidth, the parameter-default dictionaries (mass/width/radius), agreement of duplicated symbol constructions, the singledispatch registry of DynamicsSelector.assign with every implementation reaching the single store and selection by parent name over all decays, and that lookup / resonance / variables / Wigner-D refer to the same (transition, node). Re-assignment histories and custom builders are not decided. Also: the selector's keys cover the decays of the identical-particle permutations that the builder formulates (R-DYNDOMAIN), one store behind assign/__getitem__/views (R-ONESTORE), TwoBodyDecay equality over all fields (R-KEYIDENTITY), must-pass-through of the builder call.",
         "note": "singledispatchmethod semantics; qrules TwoBodyDecay fields." + COMMON_NOTE,
         "technique": "static analysis: AST role matching after local inlining, term extraction of builder return tuples (expression, defaults dict), registry enumeration",
     },
     "C14": {
-        "level": "Decides the structural necessary conditions of the substitution/equality/folding laws for every @unevaluated class (enumerated from the AST): reconstruction hooks read arguments shallowly and completely, self.args unpackings match the field lists, the hash hook covers non-SymPy fields, folded classes print through their unfolding. Universal over argument shapes because it speaks about the hook code, not about sampled instances. Does not decide the laws for arbitrary values.",
+        "level": "Decides the structural necessary conditions of the substitution/equality/folding laws for every @unevaluated class (enumerated from the AST): reconstruction hooks read arguments shallowly and completely, self.args unpackings match the field lists, the hash hook covers non-SymPy fields, folded classes print through their unfolding. Universal over argument shapes because it speaks about the hook code, not about sampled instances. Does not decide the laws for arbitrary values. Also: hashable content determines class/function-valued attributes (R-INJECTIVE), .args in field order (R-ARGORDER), decorator hooks rebuild from the complete field values (R-REBUILD), hooks descend into every argument (R-DESCEND), template precedence (R-PREC), re-entrant __new__ of the array helper classes (R-REENTRANT).",
         "note": "External-API table: dataclasses.astuple/asdict/copy.deepcopy are deep; Basic.subs/xreplace dispatch to _eval_subs/_xreplace." + COMMON_NOTE,
         "technique": "static analysis: AST model of decorator-installed hooks, call-graph reachability to deep-copy sources, arity/position check of self.args unpackings",
     },
     "C15": {
-        "level": "Decides that what is handed to pickle reconstructs the object: __getnewargs__ of every decorated class is shallow and complete, hand-written classes' __new__ accepts their own args, deprecated base returns matching (args, kwargs), model classes have no custom pickle hooks. Does not decide equality after an actual round trip.",
+        "level": "Decides that what is handed to pickle reconstructs the object: __getnewargs__ of every decorated class is shallow and complete, hand-written classes' __new__ accepts their own args, deprecated base returns matching (args, kwargs), model classes have no custom pickle hooks. Does not decide equality after an actual round trip. Also: state hooks / attribute identity (R-STATE, R-ATTRIDENTITY), expression classes are module-level (R-TOPLEVEL), no evaluate=False node stored as it is in the model (R-CANONICAL), re-entrant __new__ (R-REENTRANT).",
         "note": "Pickle protocol semantics (cls.__new__(cls, *__getnewargs__())) and Basic.__getnewargs__ = args are trusted." + COMMON_NOTE,
         "technique": "static analysis: hook resolution through import aliases, arity comparison of Expr.__new__ calls against __new__ signatures",
     },
     "C19": {
-        "level": "Decides: the literal case table of formulate_zeta_angle partitions {1,2,3}^3 (with the diagonal rule) and every call shape of the DPD generator evaluates; the identities zeta^i_{k(k)}=0, zeta^i_{k(0)}=zeta^i_{k(i)}, antisymmetry, zeta^0 = theta-hat hold by construction; and all 18 cos zeta, 6 cos theta-hat and 6 cos theta_ij formulas equal their geometric definition derived in the checker from Lorentz-invariant products (rational functions over lambda^(1/2) atoms modulo the Mandelstam relation), cos theta_ij + cos theta_ji = 0; thorough tier: cyclic covariance incl. signs. arccos range, the cyclic sum rule as an arccosine identity and numerical agreement with four-vector angles are not decided.",
+        "level": "Decides: the literal case table of formulate_zeta_angle partitions {1,2,3}^3 (with the diagonal rule) and every call shape of the DPD generator evaluates; the identities zeta^i_{k(k)}=0, zeta^i_{k(0)}=zeta^i_{k(i)}, antisymmetry, zeta^0 = theta-hat hold by construction; and all 18 cos zeta, 6 cos theta-hat and 6 cos theta_ij formulas equal their geometric definition derived in the checker from Lorentz-invariant products (rational functions over lambda^(1/2) atoms modulo the Mandelstam relation), cos theta_ij + cos theta_ji = 0; thorough tier: cyclic covariance incl. signs. arccos range, the cyclic sum rule as an arccosine identity and numerical agreement with four-vector angles are not decided. Also: orientation table of theta-hat (cyclic +acos / anti-cyclic -acos), every path of Kallen.evaluate returns the Kallen polynomial (equal-mass special cases).",
         "note": "Rows are instantiated over the finite index domain by constant propagation (no execution); textbook two-body kinematics in the specification." + COMMON_NOTE,
         "technique": "static analysis: case-table partition check, constant propagation over the index domain, term extraction and rational-function equality against an invariant-product specification",
     },
     "C20": {
-        "level": "The decided clauses are polynomial identities, so the static verdict is complete for them: Kallen symmetric and factorised, third Mandelstam sum rule, Kibble = lambda(lambda,lambda,lambda) with the right sigma/mass pairing (fully unfolded, 100+ monomials), and the Piecewise wiring of is_within_phasespace (non-strict <=, value 1, caller's outside_value). That Kibble<=0 characterises the Dalitz region is textbook mathematics and trusted.",
+        "level": "The decided clauses are polynomial identities, so the static verdict is complete for them: Kallen symmetric and factorised, third Mandelstam sum rule, Kibble = lambda(lambda,lambda,lambda) with the right sigma/mass pairing (fully unfolded, 100+ monomials), and the Piecewise wiring of is_within_phasespace (non-strict <=, value 1, caller's outside_value). That Kibble<=0 characterises the Dalitz region is textbook mathematics and trusted. Also: every path of Kallen.evaluate; both equivalent layouts of the indicator; NaN never classified inside (R-NAN); .args in field order (R-ARGORDER).",
         "note": "Term extraction covers straight-line evaluate() bodies; formal polynomial algebra over Fraction coefficients." + COMMON_NOTE,
         "technique": "static analysis: term extraction (forward substitution of the AST) + polynomial normal form comparison against the property's own formulas",
     },
